@@ -173,6 +173,44 @@ Example C12_stack_history_example :
   end.
 Proof. vm_compute. repeat split; reflexivity. Qed.
 
+(** ... and over any number of myth_init_ex / myth_fini cycles with any valid default stack
+    sizes ([erun]: at each myth_fini every list is emptied, as myth_fini_body /
+    myth_setup_worker do): the blocks in use or cached in the current epoch are pairwise
+    disjoint and disjoint from every block that sat in a list dropped at an earlier myth_fini,
+    with the extent it had in ITS epoch.  So whatever is handed out after a re-initialisation is
+    fresh from the oracle or was released in the current epoch, and a default stack extends
+    over the default size of its own epoch. *)
+Theorem C12_epoch_histories : forall mmap dsz,
+  (forall regs len r, (0 < len)%Z -> In r regs -> disj (mmap regs len, len) r) ->
+  (1 <= dsz /\ dsz + 4095 < 2 ^ 64)%Z ->
+  forall epochs g0 h Dr g,
+    erun mmap dsz epochs hs_init [] g0 = Some (h, Dr, g) -> epochs <> [] ->
+    pairwise (all_blocks g dsz h ++ Dr) /\
+    (forall b, In b (all_blocks g dsz h ++ Dr) ->
+       (0 < snd b)%Z /\ exists r, In r (fl_regs (s_fl (hs_st h))) /\ inside b r) /\
+    (forall it, In it (hs_live h) -> i_kind it = true ->
+       (fst (i_blk it) <= i_ptr it + 16 - (if i_word it =? 0 then g else i_word it))%Z /\
+       (i_ptr it + 16 <= fst (i_blk it) + snd (i_blk it))%Z /\
+       match release_target (s_mem (hs_st h)) (i_ptr it) with
+       | RDefault t => i_word it = 0%Z /\ t = i_ptr it /\ i_blk it = def_blk g t
+       | RClass i s => i_word it <> 0%Z /\ i_blk it = (s, 2 ^ i)%Z
+       | RBad => False
+       end).
+Proof. exact epoch_histories. Qed.
+Print Assumptions C12_epoch_histories.
+
+(** two epochs: two 16 KiB default stacks are cached at the first myth_fini; with a default
+    size of 64 KiB the next epoch maps fresh 64 KiB regions instead of reusing them *)
+Example C12_epoch_history_example :
+  match erun bump_mmap 416 [(16384, [SGet 0 0; SGet 0 0; SRel 0 16368; SRel 0 32752]);
+                            (65536, [SGet 0 0; SGet 0 0; SGet 1 5000])]%Z hs_init [] 0%Z with
+  | Some (h, dropped, g) =>
+      map i_blk (hs_live h) = [(163840, 8192); (98304, 65536); (32768, 65536)]%Z /\
+      dropped = [(16384, 16384); (0, 16384)]%Z /\ g = 65536%Z
+  | None => False
+  end.
+Proof. vm_compute. repeat split; reflexivity. Qed.
+
 (** * (3) the ledger, for every number of workers and every schedule *)
 
 (** every stack and every record that exists is owned by exactly one thread or sits exactly
@@ -252,6 +290,56 @@ Theorem C12_env_consistent : forall st w e st', LedgerModel.step st (w, e) = Som
   others_desc w (fdesc st') = others_desc w (fdesc st).
 Proof. exact release_to_own_list. Qed.
 Print Assumptions C12_env_consistent.
+
+(** Epochs (myth_fini; myth_init_ex).  The lists cached by the workers of a finished run are
+    dropped: no later step touches an entry of an earlier epoch, an allocation takes either a
+    fresh resource or one released in the current epoch, and after the re-initialisation every
+    cached entry belongs to an earlier epoch. *)
+Theorem C12_epoch_drops_lists : forall st w e st',
+  reachable LedgerModel.init LedgerModel.step st -> LedgerModel.step st (w, e) = Some st' ->
+  dead_stk (base st) (fstk st') = dead_stk (base st) (fstk st) /\
+  dead_desc (base st) (fdesc st') = dead_desc (base st) (fdesc st) /\
+  base st <= base st' /\
+  (forall c, e = EAllocStack c ->
+     fstk st' = fstk st \/
+     exists l1 k x l2, fstk st = l1 ++ (k, x) :: l2 /\ fstk st' = l1 ++ l2 /\ base st <= fst k) /\
+  (forall d, e = EAllocDesc d ->
+     fdesc st' = fdesc st \/
+     exists l1 k x l2, fdesc st = l1 ++ (k, x) :: l2 /\ fdesc st' = l1 ++ l2 /\ base st <= k) /\
+  (forall n, e = EEpoch n ->
+     fstk st' = fstk st /\ fdesc st' = fdesc st /\
+     (forall x, In x (fstk st') -> fst (fst x) < base st') /\
+     (forall x, In x (fdesc st') -> fst x < base st')).
+Proof. exact epoch_drops_lists. Qed.
+Print Assumptions C12_epoch_drops_lists.
+
+(** ... so a stack or record cached at a myth_fini is never handed out again, in any later
+    epoch, under any schedule: it stays in its dropped list and no thread ever owns it *)
+Theorem C12_cached_at_fini_never_reused : forall st, reachable LedgerModel.init LedgerModel.step st ->
+  forall sched,
+  (forall x, In x (fstk st) -> fst (fst x) < base st ->
+     In x (fstk (run LedgerModel.step sched st)) /\
+     forall t th, nth_error (ths (run LedgerModel.step sched st)) t = Some th ->
+                  owns_stack (t_ph th) = true -> t_stack th <> snd x) /\
+  (forall x, In x (fdesc st) -> fst x < base st ->
+     In x (fdesc (run LedgerModel.step sched st)) /\
+     forall t th, nth_error (ths (run LedgerModel.step sched st)) t = Some th ->
+                  t_ph th <> PGone -> t_desc th <> snd x).
+Proof. exact cached_at_fini_never_reused. Qed.
+Print Assumptions C12_cached_at_fini_never_reused.
+
+(** one worker runs a thread to its end and reaps it (stack 0 and record 0 cached in its lists);
+    after the epoch step a creation by the new worker (id 1) gets a fresh record 1 and a fresh
+    stack 1; the old worker 0 can no longer act *)
+Example C12_epoch_example :
+  let sched := [(0, EAllocDesc false); (0, EAllocStack 0); (0, EResume 0); (0, EFinEnter);
+                (0, ESwitchAway None); (0, ERelStack); (0, EPublish); (0, EReap 0);
+                (0, EEpoch 1); (1, EAllocDesc false); (1, EAllocStack 0)] in
+  let st := run LedgerModel.step sched (init_state 1) in
+  base st = 1 /\ fstk st = [((0, 0), 0)] /\ fdesc st = [(0, 0)] /\
+  map t_desc (ths st) = [0; 1] /\ map t_stack (ths st) = [0; 1] /\
+  LedgerModel.step st (0, EAllocDesc false) = None.
+Proof. vm_compute. repeat split; reflexivity. Qed.
 
 (** non-vacuity: two workers; worker 0 creates a thread (record 0, stack 0), runs it to its
     end, switches to its scheduler, the callback releases the stack and publishes; worker 1
